@@ -1096,8 +1096,12 @@ class Engine:
                 return res
             if k == "switch":
                 v = self.eval_operand(st, fr, t[1])
+                if isinstance(v, bool):
+                    v = z3.BitVecVal(int(v), 8)
                 if z3.is_bool(v):
                     v = z3.If(v, z3.BitVecVal(1, 8), z3.BitVecVal(0, 8))
+                if not z3.is_expr(v):
+                    raise Unsupported("switch on %r (in %s)" % (v, fr.fn.name))
                 v = z3.simplify(v)
                 targets, otherwise = t[2], t[3]
                 if z3.is_bv_value(v):
@@ -1256,6 +1260,8 @@ class Engine:
         return self._complete(st, fr, dest, ret_bb, out, callee)
 
     def _complete(self, st, fr, dest, ret_bb, out, callee):
+        if isinstance(out, Inline):     # an alternative of a Fork that continues in a function body (e.g. `opt.map_or(d, closure)` on an opaque option)
+            return self.push_frame(st, fr, out.fn, out.args, dest, ret_bb, getattr(out, "wrap", None))
         if isinstance(out, _InsertAt):
             v = _deref_arg(self, st, out.r)
             st.events.append(("insert", (out.r.root, out.r.path), out.i, out.val))
@@ -1263,7 +1269,7 @@ class Engine:
             out = UNIT
         if isinstance(out, _SetPlace):
             self.write_at(st, out.r.root, list(out.r.path), out.value)
-            out = UNIT
+            out = out.result
         if isinstance(out, Panic):
             return self.end(st, "panic", info=out.info)
         if ret_bb is None:
@@ -1860,10 +1866,10 @@ def m_vec_dedup(engine, st, fr, callee, args, ops):
 
 
 class _SetPlace:
-    """Deferred write of a place (applied when a Fork alternative is taken); evaluates to ()."""
+    """Deferred write of a place (applied when a Fork alternative is taken); evaluates to `result` (default ())."""
 
-    def __init__(self, r, value):
-        self.r, self.value = r, value
+    def __init__(self, r, value, result=None):
+        self.r, self.value, self.result = r, value, (UNIT if result is None else result)
 
 
 BUILTIN_MODELS = [
